@@ -1417,6 +1417,252 @@ func runFwd(a ID, ids []ID, ops []*fop, class string) {
 	out.Add(nm.wrap(fmt.Sprintf("CFwd %d %s %s %s", limits.Frag, nm.id(a), vh.List(opTerms), vh.List(obsTerms))), class, frags >= 2 && len(handled) >= 1, caseDescShort(all, descOps))
 }
 
+// ---------------------------------------------------------------- packets with every flag combination
+
+const (
+	xbPlain = iota
+	xbCont
+	xbBad
+)
+
+type xsub struct {
+	dev ID
+	pid uint8
+	job uint16
+}
+type xpkt struct {
+	dev                      ID
+	pid                      uint8
+	job                      uint16
+	multi, mdev, frag, proxy bool
+	cnt                      int
+	body                     int
+	subs                     []xsub
+}
+
+func (x *xpkt) build() *com.Packet {
+	n := &com.Packet{ID: x.pid, Job: x.job, Device: x.dev}
+	if x.body == xbCont {
+		for _, s := range x.subs {
+			v := &com.Packet{ID: s.pid, Job: s.job, Device: s.dev}
+			v.Write([]byte{9})
+			v.MarshalStream(n)
+		}
+	} else {
+		n.Write([]byte{1, 2, 3})
+	}
+	f := com.Flag(uint16(x.cnt))<<48 | com.Flag(uint16(rng.Intn(60000)+1))<<16
+	if x.multi {
+		f |= com.FlagMulti
+	}
+	if x.mdev {
+		f |= com.FlagMultiDevice
+	}
+	if x.frag {
+		f |= com.FlagFrag
+	}
+	if x.proxy {
+		f |= com.FlagProxy
+	}
+	n.Flags = f
+	return n
+}
+func (x *xpkt) coq(nm *namer) string {
+	b := "XPlain"
+	switch x.body {
+	case xbCont:
+		s := make([]string, len(x.subs))
+		for i, v := range x.subs {
+			s[i] = fmt.Sprintf("(%s,%d,%d)", nm.id(v.dev), v.pid, v.job)
+		}
+		b = "(XCont " + vh.List(s) + ")"
+	case xbBad:
+		b = "XBad"
+	}
+	return fmt.Sprintf("(XP %s %d %d %s %s %s %s %d %s)", nm.id(x.dev), x.pid, x.job, vh.B(x.multi), vh.B(x.mdev), vh.B(x.frag), vh.B(x.proxy), x.cnt, b)
+}
+func (x *xpkt) desc() map[string]interface{} {
+	var fl []string
+	for _, p := range []struct {
+		b bool
+		n string
+	}{{x.multi, "FlagMulti"}, {x.mdev, "FlagMultiDevice"}, {x.frag, "FlagFrag"}, {x.proxy, "FlagProxy"}} {
+		if p.b {
+			fl = append(fl, p.n)
+		}
+	}
+	m := map[string]interface{}{"dev": hx(x.dev), "id": int(x.pid), "job": int(x.job), "flags": fl, "Flags.Len": x.cnt,
+		"body": [...]string{"3 payload bytes", "well-formed entries", "3 payload bytes that are no packet"}[x.body]}
+	if x.body == xbCont {
+		var e []interface{}
+		for _, v := range x.subs {
+			e = append(e, map[string]interface{}{"dev": hx(v.dev), "id": int(v.pid), "job": int(v.job)})
+		}
+		m["entries"] = e
+	}
+	return m
+}
+
+const (
+	xReg = iota
+	xOpen
+	xChan
+	xPoll
+)
+
+type xop struct {
+	kind int
+	d    ID
+	job  uint16
+	n    *xpkt
+}
+
+func (o *xop) desc() map[string]interface{} {
+	switch o.kind {
+	case xReg:
+		return map[string]interface{}{"op": "hello through Listener.talk", "dev": hx(o.d), "job": int(o.job)}
+	case xOpen:
+		return map[string]interface{}{"op": "dev's connection becomes a Channel (conn.channelRead starts)", "dev": hx(o.d)}
+	case xChan:
+		return map[string]interface{}{"op": "packet arrives on dev's Channel connection (conn.channelRead -> conn.process)", "dev": hx(o.d), "packet": o.n.desc()}
+	}
+	return map[string]interface{}{"op": "packet arrives on a polling connection (Listener.talk -> conn.process)", "packet": o.n.desc()}
+}
+
+func runFlag(ids []ID, ops []*xop, class string) {
+	srv, l := c2.VerifC15NewServer(keys)
+	open := map[ID]*c2.VerifC15Chan{}
+	defer func() {
+		for _, h := range open {
+			h.Close()
+		}
+		srv.Close()
+	}()
+	var (
+		mu  sync.Mutex
+		evs []event
+	)
+	srv.New = func(s *c2.Session) {
+		mu.Lock()
+		evs = append(evs, event{kind: 0, sid: s.ID})
+		mu.Unlock()
+		s.Receive = func(s *c2.Session, n *com.Packet) {
+			mu.Lock()
+			evs = append(evs, event{kind: 1, sid: s.ID, dev: n.Device, job: n.Job})
+			mu.Unlock()
+		}
+	}
+	nm := newNamer(ids)
+	var (
+		opTerms, obsTerms []string
+		descOps           []interface{}
+		fired             int
+	)
+	caseDesc := func() map[string]interface{} {
+		h := make([]string, len(ids))
+		for i, d := range ids {
+			h[i] = hx(d)
+		}
+		return map[string]interface{}{"ids": h, "flag_history": append([]interface{}(nil), descOps...), "failing_step": len(descOps)}
+	}
+	for k, o := range ops {
+		descOps = append(descOps, o.desc())
+		var ans string
+		reg := srv.Session(o.d)
+		if reg != nil && reg.ID != o.d {
+			fail("Server.Session(B) returned the session of another device A with the same 32-bit hash", "server-session-hash-only", caseDesc())
+			reg = nil
+		}
+		_, isOpn := open[o.d]
+		func() {
+			defer func() {
+				if x := recover(); x != nil {
+					ans = "(AErr 99)"
+					fail(fmt.Sprintf("panic in flag step %d: %v", k+1, x), "panic", caseDesc())
+				}
+			}()
+			talk := func(n *com.Packet) {
+				next, host, _, err := c2.VerifC15Talk(l, "0", n)
+				switch {
+				case err != nil:
+					ans = fmt.Sprintf("(AErr %d)", errClass(err))
+				case next != nil && next.ID == c2.SvRegister && host == nil:
+					ans = "(ARegister " + nm.id(next.Device) + ")"
+				default:
+					ans = "(ABool true)"
+				}
+			}
+			switch o.kind {
+			case xReg:
+				opTerms = append(opTerms, fmt.Sprintf("XReg %s %d", nm.id(o.d), o.job))
+				if isOpn {
+					ans = "(ABool false)"
+					return
+				}
+				talk(c2.VerifC15Hello(o.d, o.job, machine))
+			case xOpen:
+				opTerms = append(opTerms, "XOpen "+nm.id(o.d))
+				if reg == nil || isOpn {
+					ans = "(ABool false)"
+					return
+				}
+				open[o.d] = c2.VerifC15ChanOpen(l, reg)
+				ans = "(ABool true)"
+			case xChan:
+				opTerms = append(opTerms, fmt.Sprintf("XChan %s %s", nm.id(o.d), o.n.coq(nm)))
+				if reg == nil || !isOpn {
+					ans = "(ABool false)"
+					return
+				}
+				if open[o.d].FeedPacket(o.n.build()) {
+					ans = "(ABool true)"
+				} else {
+					ans = "(AErr 9)"
+					delete(open, o.d)
+				}
+			default:
+				opTerms = append(opTerms, "XPoll "+o.n.coq(nm))
+				if o.n.dev.Empty() {
+					talk(o.n.build())
+					return
+				}
+				if _, op := open[o.n.dev]; op {
+					if s := srv.Session(o.n.dev); s != nil && s.ID == o.n.dev {
+						ans = "(ABool false)"
+						return
+					}
+				}
+				talk(o.n.build())
+			}
+		}()
+		if !c2.VerifC15Barrier(srv) {
+			panic("barrier timeout")
+		}
+		mu.Lock()
+		got := evs
+		evs = nil
+		mu.Unlock()
+		es := make([]string, len(got))
+		for i, e := range got {
+			if e.kind == 0 {
+				es[i] = "VNew " + nm.id(e.sid)
+				continue
+			}
+			es[i] = fmt.Sprintf("VRecv %s %s %d", nm.id(e.sid), nm.id(e.dev), e.job)
+			fired++
+			if e.sid != e.dev {
+				key := "flags-poll-delivered-to-other-session"
+				if o.kind == xChan {
+					key = "flags-channel-delivered-to-other-session"
+				}
+				fail("a packet naming device X was delivered to the handler of the session of device H", key, caseDesc())
+			}
+		}
+		obsTerms = append(obsTerms, fmt.Sprintf("XObs %s %s", ans, vh.List(es)))
+	}
+	out.Add(nm.wrap(fmt.Sprintf("CFlag %s %s", vh.List(opTerms), vh.List(obsTerms))), class, fired >= 1, caseDescShort(ids, descOps))
+}
+
 // ---------------------------------------------------------------- generators
 
 func randID() ID {
@@ -1919,6 +2165,94 @@ func main() {
 			}
 			ops = append(ops, &fop{kind: fPump})
 			runFwd(host, np, ops, "fwd")
+		}
+	}
+	// ---- every combination of {FlagMulti, FlagMultiDevice, FlagFrag, FlagProxy} x device x body, on a Channel
+	// connection and on a polling connection
+	{
+		h, cl := pairs[0][0], pairs[0][1] // cl: not registered, same hash as h
+		x, y, u := randID(), randID(), randID()
+		ids := []ID{h, cl, x, y, u}
+		job := uint16(100)
+		nj := func() uint16 { job++; return job }
+		shapes := func(d ID, fl int) []*xpkt {
+			mk := func(cnt, body int, subs ...ID) *xpkt {
+				p := &xpkt{dev: d, pid: c2.RvResult, job: nj(), multi: fl&1 != 0, mdev: fl&2 != 0, frag: fl&4 != 0, proxy: fl&8 != 0, cnt: cnt, body: body}
+				for _, s := range subs {
+					p.subs = append(p.subs, xsub{s, uint8(0xC0 + rng.Intn(16)), nj()})
+				}
+				if body == xbCont {
+					p.cnt = len(subs)
+				}
+				return p
+			}
+			return []*xpkt{mk(0, xbPlain), mk(1, xbPlain), mk(2, xbPlain), mk(0, xbCont, h), mk(0, xbCont, x), mk(0, xbCont, h, x, u, cl, y), mk(1, xbBad)}
+		}
+		setup := []*xop{{kind: xReg, d: h, job: 1}, {kind: xReg, d: x, job: 2}, {kind: xReg, d: y, job: 3}}
+		var chanOps, pollOps []*xop
+		for fl := 0; fl < 16; fl++ {
+			for _, d := range []ID{h, x, u, cl} {
+				for _, p := range shapes(d, fl) {
+					chanOps = append(chanOps, &xop{kind: xOpen, d: h}, &xop{kind: xChan, d: h, n: p})
+				}
+				for _, p := range shapes(d, fl) {
+					pollOps = append(pollOps, &xop{kind: xPoll, n: p})
+				}
+			}
+		}
+		chunk := func(ops []*xop, n int, class string) {
+			for i := 0; i < len(ops); i += n {
+				e := i + n
+				if e > len(ops) {
+					e = len(ops)
+				}
+				runFlag(ids, append(append([]*xop(nil), setup...), ops[i:e]...), class)
+			}
+		}
+		chunk(chanOps, 56, "flags-channel")
+		chunk(pollOps, 28, "flags-poll")
+		nFlag := 10
+		if thorough {
+			nFlag = 400
+		}
+		for i := 0; i < nFlag; i++ {
+			pool := genPool(pairs)
+			var np []ID
+			for _, d := range pool {
+				if !d.Empty() {
+					np = append(np, d)
+				}
+			}
+			job = 100
+			var ops []*xop
+			for j, m := 0, 2+rng.Intn(3); j < m; j++ {
+				ops = append(ops, &xop{kind: xReg, d: pick(np), job: nj()})
+			}
+			withChan := rng.Bool()
+			host := ops[0].d
+			for j, m := 0, 10+rng.Intn(20); j < m; j++ {
+				fl := rng.Intn(16)
+				p := &xpkt{dev: pick(np), pid: uint8(0xC0 + rng.Intn(16)), job: nj(), multi: fl&1 != 0, mdev: fl&2 != 0, frag: fl&4 != 0, proxy: fl&8 != 0, cnt: rng.Intn(3)}
+				switch rng.Intn(4) {
+				case 0:
+					p.body = xbBad
+				case 1, 2:
+					p.body = xbCont
+					for q, mm := 0, rng.Intn(4); q < mm; q++ {
+						p.subs = append(p.subs, xsub{pick(np), uint8(0xC0 + rng.Intn(16)), nj()})
+					}
+					p.cnt = len(p.subs)
+				}
+				if withChan {
+					if rng.Intn(3) == 0 {
+						p.dev = host
+					}
+					ops = append(ops, &xop{kind: xOpen, d: host}, &xop{kind: xChan, d: host, n: p})
+				} else {
+					ops = append(ops, &xop{kind: xPoll, n: p})
+				}
+			}
+			runFlag(np, ops, "flags")
 		}
 	}
 	fs := map[string]int{}
